@@ -60,7 +60,7 @@ class ExecutionStatus(Serializable):
         FAILED = "FAILED"
         DONE = "DONE"
 
-    _ATTR_NOT_TO_SERIALIZE: ClassVar[set[str]] = {"__observers"}
+    _ATTR_NOT_TO_SERIALIZE: ClassVar[set[str]] = {"_ExecutionStatus__observers"}
 
     __process_name: str
     """The name of the process that has an execution status."""
